@@ -209,6 +209,25 @@ def coqc_props(prop_file, timeout=300):
     return rc, out, dt, cmd
 
 
+def coqchk_props(prop, timeout=5400):
+    """thorough tier: the independent checker re-checks Props/Cxx.vo and everything it depends on and lists the axioms"""
+    cmd = f"timeout {timeout} coqchk -silent -o -Q . PTQ PTQ.Props.{prop}"
+    rc, out, dt = sh(cmd, cwd=COQ, timeout=timeout + 30)
+    axioms = None
+    m = re.search(r"\* Axioms:(.*?)\n\s*\n\* Constants/Inductives relying on type-in-type:(.*?)\n\s*\n"
+                  r"\* Constants/Inductives relying on unsafe \(co\)fixpoints:(.*?)\n\s*\n"
+                  r"\* Inductives whose positivity is assumed:(.*?)(\n\s*\n|$)", out, flags=re.S)
+    info = {"cmd": f"cd {COQ} && {cmd}", "rc": rc, "wall_s": round(dt, 1)}
+    if m:
+        info["axioms"] = " ".join(m.group(1).split())
+        info["type_in_type"] = " ".join(m.group(2).split())
+        info["unsafe_fixpoints"] = " ".join(m.group(3).split())
+        info["assumed_positivity"] = " ".join(m.group(4).split())
+    else:
+        info["tail"] = out[-500:]
+    return rc, info
+
+
 def parse_assumptions(prop_file, coqc_out):
     """Pair every 'Theorem name' followed by 'Print Assumptions name' with the output block."""
     text = strip_comments(open(os.path.join(COQ, prop_file)).read())
@@ -349,12 +368,14 @@ class Ctx:
             self.nontrivial.add(hashlib.sha1(json.dumps(case, sort_keys=True, default=str).encode()).hexdigest())
 
     def correspond(self, stream, cases, impl, to_line, nontrivial=lambda c: True, timeout_s=20,
-                   post=None):
+                   post=None, _precomputed=False):
         """Differential run.  impl(case)->str ; to_line(case)->driver line.
         Agreement: equal strings, or both errors (kind drift is counted, not a disagreement)."""
         t0 = time.time()
-        impl_out = [call_impl(impl, c, timeout_s) for c in cases]
+        impl_out = [impl(c) for c in cases] if _precomputed else [call_impl(impl, c, timeout_s) for c in cases]
         model_out = run_driver([to_line(c) for c in cases])
+        if _precomputed:
+            cases = [c[0] for c in cases]
         if post:
             model_out = [post(c, m) for c, m in zip(cases, model_out)]
         st = self.corr.setdefault(stream, {"cases": 0, "agree": 0, "both_err": 0, "kind_drift": 0,
@@ -381,6 +402,11 @@ class Ctx:
             self.samples.append({"stream": stream, "case": _short(cases[k]), "impl": impl_out[k][:200],
                                  "model": model_out[k][:200]})
         return impl_out, model_out
+
+    def correspond_pre(self, stream, cases, impl_out, lines):
+        """Differential run where the implementation's results were already collected (impl_out) for the driver lines."""
+        return self.correspond(stream, list(zip(cases, impl_out, lines)), lambda c: c[1], lambda c: c[2],
+                               _precomputed=True)
 
     def correspond_templated(self, stream, cases, to_line, impl_like, nontrivial=lambda c: True, timeout_s=20):
         """Like correspond, but the implementation's result is rendered in the shape of the model's line
@@ -479,6 +505,11 @@ def run_check(mod, tier, seed):
             for t in theorems:
                 ax = assumptions.get(t)
                 obligations[t] = "discharged" if (rc3 == 0 and ax is not None) else "unchecked"
+            if tier == "thorough" and rc3 == 0 and not os.environ.get("VERIF_DEV_NOPROOF"):
+                rc4, chk = coqchk_props(prop)
+                build_info["coqchk"] = chk
+                if rc4 != 0 or any(chk.get(k, "?") != "<none>" for k in ("type_in_type", "unsafe_fixpoints", "assumed_positivity")):
+                    ctx.broken.append("coqchk: " + json.dumps(chk)[:300])
         else:
             text = strip_comments(open(os.path.join(COQ, prop_file)).read())
             for t in re.findall(r"^\s*(?:Theorem|Lemma|Corollary)\s+(\w+)", text, flags=re.M):
@@ -541,6 +572,8 @@ def run_check(mod, tier, seed):
     for t, ax in assumptions.items():
         tb.append(f"Print Assumptions {t}: " + ("Closed under the global context" if ax == [] else
                                                 ("; ".join(ax) if ax else "not available")))
+    if build_info.get("coqchk"):
+        tb.append("coqchk -o (independent checker, whole dependency cone): axioms " + build_info["coqchk"].get("axioms", "?"))
     ev = {
         "property_id": prop, "tier": tier, "seed": seed, "level": "proof",
         "coverage": {
